@@ -28,6 +28,20 @@ func Native_decoder_contracts() string {
 		docs = append(docs, &doc{kind: 6, keys: []string{"a"}, obj: []*doc{{kind: 6}}})
 	}
 	var diffs []string
+	for _, e := range c18Big {
+		text := []byte(`{"n": ` + e.txt + `}`)
+		var y, j, h interface{}
+		if yaml.Unmarshal(text, &y) != nil || json.Unmarshal(text, &j) != nil || hjson.Unmarshal(text, &h) != nil {
+			diffs = append(diffs, fmt.Sprintf("a decoder rejects %s", text))
+			continue
+		}
+		if !reflect.DeepEqual(y, map[interface{}]interface{}{"n": e.y}) {
+			diffs = append(diffs, fmt.Sprintf("yaml contract differs for %s: real %#v contract %#v", text, y, e.y))
+		}
+		if !reflect.DeepEqual(j, map[string]interface{}{"n": e.j}) || !reflect.DeepEqual(h, map[string]interface{}{"n": e.j}) {
+			diffs = append(diffs, fmt.Sprintf("json/hjson contract differs for %s: real %#v / %#v contract %#v", text, j, h, e.j))
+		}
+	}
 	for _, d := range docs {
 		text := []byte(d.text())
 		var y, j, h interface{}
